@@ -51,6 +51,19 @@ FIRST_MISSED = {
     "C17-I": "attributes named like a prefix that the same start tag declares (p=\"v\" next to xmlns:p)",
     "C19-I": "element names that are raw text in a browser but ordinary escaped text for the serializer (xmp, iframe, noembed, noframes, plaintext, noscript)",
     "C20-I": "stepwise programs that build a text node in two pieces (the second is placed behind the first with insert_after, insert_before the next sibling, or append, and merges into it)",
+    "C01-L": "comments and PI data containing CR and CR LF (kept verbatim by the parser, so they round-trip)",
+    "C02-L": "namespace names with several spaces, and a 'mostly literal' spelling mode: a value written without references wherever possible, so that a lone literal CR / TAB is the only special thing in it (what a 'nothing to decode' shortcut sees)",
+    "C03-L": "damage kind: the reserved PI target in another letter case (<?XML x?>, <?Xml?>, <?xmL version=\"1.0\"?>) wherever a PI may stand",
+    "C04-K": "a drive profile around the xml:id index: parsed documents, elements with an ID removed, new nodes created (the freed slots are handed out again) and attached under the same document",
+    "C07-L": "traversals are also observed on forests the crate has manipulated itself (one or two structure-changing calls, every kind equally often, instances with the richest argument nodes preferred, and short random histories); a forest that is no tree afterwards is reported by the running check",
+    "C08-K": "the same key registered 70 000 times in each table (one id throughout), then the ordinary registrations",
+    "C08-L": "strings with a colon (xml:id, xml:lang, p:a, xmlns:p, :a) registered as plain names; the registrations and lookups of src/xmlname (OwnedName::to_ref / to_create / maybe_to_ref, CreateName::*, CreateNamespace) as further routes into the same tables",
+    "C10-L": "namespace names that need escaping inside a declaration (TAB, LF, CR, two spaces, <, quote and &) with an element or attribute living in them",
+    "C13-K": "elements with 9 to 12 attributes against a copy with one more / one renamed (and wide elements in all random forests)",
+    "C15-L": "new clause in L1 (and in the L2 refinement on 46 k layouts): names that could be written with the declarations of the subtree alone still can - redundancy is judged inside the subtree the call was made on",
+    "C17-L": "new clause: where the spans are right, the value each node holds must be what its span decodes to",
+    "C18-K": "MCWs layouts where the elements carrying xml:space also declare prefixes (namespace nodes stand in front of the attribute nodes)",
+    "C19-L": "element names with U+212A KELVIN SIGN, whose Unicode lower case is ASCII k (HTML matches names ASCII-case-insensitively only); the xml prefix declared explicitly on inner elements",
     "C12-F": "xml_id_node of a document created by the call must lie inside it (new clause under C12); clone profile parses xml:id documents and clones whole documents",
     "C14-E": "a non-ASCII character in the bracket strings (] > x < CR e-acute up to length 4 / 5)",
     "C17-F": "any white space between a PI's target and its data (two spaces, newline + indent, CR LF)",
